@@ -2,6 +2,7 @@
 //! on both storage layouts, logged for validation by spec/Trace_Mat.tla.
 use crate::alg::*;
 use crate::q::Q;
+use crate::sym::Sym;
 use crate::util::*;
 use num_traits::{One, Zero};
 use serde_json::{json, Value};
@@ -150,6 +151,13 @@ pub fn drive_products(args: &[String]) {
     let mut d = Drv::new(&arg(args, "--out").expect("--out"), seed);
     for _ in 0..n {
         match lane.as_str() {
+            "sym" => {
+                // free symbols: every recorded result is the polynomial the code computes for all inputs
+                crate::sym::reset(); products!(&mut d, Sym, Mat2, Vec2, 2, false);
+                crate::sym::reset(); products!(&mut d, Sym, Mat3, Vec3, 3, false);
+                crate::sym::reset(); products!(&mut d, Sym, Mat4, Vec4, 4, false);
+                crate::sym::reset(); mat2_helpers::<Sym>(&mut d);
+            }
             "q" => {
                 products!(&mut d, Q, Mat2, Vec2, 2, true);
                 products!(&mut d, Q, Mat3, Vec3, 3, true);
